@@ -171,6 +171,15 @@ impl Lift for SubWordValue {
                 _ => value,
             };
 
+            // The shifted mask has to describe bits that exist in the word; a shift that
+            // moves it (partly) outside of the word does not describe a sub-word at all
+            let Some(shifted_offset) = offset.checked_add(shift) else {
+                return None;
+            };
+            if shifted_offset.saturating_add(length) > WORD_SIZE_BITS {
+                return None;
+            }
+
             // If we find a word, we can easily construct the return data
             let payload = SVD::SubWord {
                 value,
